@@ -252,6 +252,11 @@ def install_digests(it):
     m(r'<md5::digest::core_api::CoreWrapper<md5::Md5Core> as md5::Digest>::digest::<.*>', digest)
     m(r"core::fmt::rt::Argument::<'_>::new_lower_hex::<md5::digest::generic_array::GenericArray<.*>>", lambda it_, g: [HexText(chunks(list(deref_all(g))))])
     m(r'<.*ahash::AHasher as std::default::Default>::default', lambda it_: AHash())
-    m(r'<.*ahash::AHasher as std::hash::Hasher>::write', lambda it_, h, data: (deref_all(h).buf.extend(list(deref_all(data))), [])[1])
+    def ah_write(it_, h, data):
+        # every write is one message of its own: the boundary marker keeps write("ab") apart from write("a"); write("b")
+        b = deref_all(h).buf
+        if b: b.extend(mk('AHASH_WRITE_BOUNDARY', [], n=1))
+        b.extend(list(deref_all(data))); return []
+    m(r'<.*ahash::AHasher as std::hash::Hasher>::write', ah_write)
     m(r'<.*ahash::AHasher as std::hash::Hasher>::finish', lambda it_, h: HashKey(chunks(deref_all(h).buf)))
     it.models = ms + list(it.models)
